@@ -18,7 +18,7 @@ RULE = (
     "3-D; four padding words; with/without space after ':'; entries of face/volume_dimensions in the order of node_dimensions or shuffled; Conventions/conventions; ordinary and hostile dimension "
     "names incl. substrings of each other and of 'padding'; optionally contradicting COMODO attributes). Verdicts: axes "
     "and position->dimension mapping equal the spec; diff/interp on the parsed Grid equal the Grid built from the "
-    "explicit mapping; SGRID wins over COMODO when declared; user coords + parsed coords are rejected. Class = "
+    "explicit mapping; SGRID wins over COMODO when declared; user coords (the parsed axes, a subset, disjoint axes, a superset) + parsed coords are rejected. Class = "
     "(convention, kind, per-axis (positions or padding word), name style); non-trivial iff some axis has a non-center position."
 )
 REQUIRED_REACH = [
@@ -94,12 +94,21 @@ def run_case(ctx, desc):
         ctx.sample({"case": desc, "attrs": {str(k): dict(v.attrs) for k, v in ds.variables.items() if v.attrs}, "global": dict(ds.attrs)})
     if desc["conflict"]:
         # user coords together with parsed ones must be rejected, not merged
-        ctx.judged(("conflict", desc["conv"]), True)
-        try:
-            Grid(ds, coords=want, periodic=False)
-            ctx.violation("user-coords-plus-parsed-rejected", f"Grid(ds, coords=...) on an annotated {desc['conv']} dataset was accepted")
-        except Exception:
-            pass
+        # ... whatever the user's mapping names: the parsed axes themselves, some of them, or only axes the metadata
+        # does not describe (which would silently drop the parsed ones if it were accepted)
+        dsu = ds.assign_coords(w_user=("w_user", np.arange(3.0)), w_user_l=("w_user_l", np.arange(3.0) - 0.5))
+        wuser = {"center": "w_user", "left": "w_user_l"}
+        first = sorted(want)[0]
+        for kind, user in (("same", want), ("subset", {first: want[first]}), ("disjoint", {"Wuser": wuser}),
+                           ("superset", dict(want, Wuser=wuser))):
+            ctx.judged(("conflict", desc["conv"], kind), True)
+            try:
+                gbad = Grid(dsu, coords=user, periodic=False)
+                ctx.violation("user-coords-plus-parsed-rejected", f"Grid(ds, coords={user}) on an annotated {desc['conv']} dataset "
+                                                                  f"(parsed axes {sorted(want)}) was accepted ({kind}); axes {list(gbad.axes)}")
+                break
+            except Exception:
+                pass
     try:
         g = Grid(ds, periodic=False)
     except Exception as e:
